@@ -141,6 +141,13 @@ def topologies():
     s = base_spec(); s["ups"]["up0"].update({"start": "2025-03-29T22", "values": [1, 2, 3, 4, 5, 6, 7, 8]})
     s["storages"]["st0"] = {"base_storage_need": (1, "TB")}
     T["dst_spring_forward"] = s
+    # inputs expressed in unusual but legal units (percent, days, kW, MB ...)
+    s = base_spec()
+    s["servers"]["srv0"].update({"power_usage_effectiveness": (120, "percent"), "server_utilization_rate": (90, "percent"), "ram": (128000, "MB"),
+                                 "power": (0.3, "kW"), "lifespan": (2191.5, "day")})
+    s["storages"]["st0"] = {"data_replication_factor": (300, "percent"), "storage_capacity": (1000, "GB"), "base_storage_need": (2000, "GB"), "idle_power": (1, "W")}
+    s["jobs"]["job0"].update({"data_transferred": (0.15, "MB"), "request_duration": (0.02, "min")})
+    T["unusual_units"] = s
     return T
 
 
